@@ -37,6 +37,10 @@
   exponent, was repaired in the Go code and the model; no tape hypothesis remains.)
   `startAuthenticate_question_nul` / `_too_long` / `_bad_question` (repaired code): a question with a NUL
   byte or too long for a TLV is refused with an error before anything happens (state unchanged).
+  Repaired code (c2434f4): `receive_disconnect_despite_rotation_failure` / `tail_disconnect` (Proofs.ConvData): once a
+  data message is authentic and accepted, its disconnected TLV (no SMP TLV before it) ends the conversation
+  (`finished`) even when the key rotation it asks for fails for lack of randomness and the call returns that error;
+  assumed: `rotatesOur`, `randRead 40` returns `none`; form: `processDataMessageTail`.
 -/
 
 import Proofs.ConvData
@@ -131,5 +135,14 @@ theorem startAuthenticate_bad_question : type_of% @Otr.startAuthenticate_bad_que
 /-- no exchange is started by a rejected message: from the authentication state `none`, an error next to the
     messages to send means nothing to send and the state still `none` (what keeps the field `akeVer` of `Inv`) -/
 theorem processAKE_none_rejected : type_of% @Otr.processAKE_none_rejected := @Otr.processAKE_none_rejected
+
+/-- repaired code (c2434f4): an authentic, accepted data message whose key rotation cannot draw randomness still has
+    its TLVs acted upon - with a disconnected TLV (no SMP TLV before it) the call reports an error AND the
+    conversation is `finished`.  Form proved: `processDataMessageTail`, the part of
+    `processDataMessageWithRawErrors` that runs once the MAC is verified and the counter accepted. -/
+theorem receive_disconnect_despite_rotation_failure : type_of% @Otr.ConvData.receive_disconnect_despite_rotation_failure := @Otr.ConvData.receive_disconnect_despite_rotation_failure
+
+/-- the same whatever the rotation does: every outcome of the accepted message with a disconnected TLV is `finished` -/
+theorem tail_disconnect : type_of% @Otr.ConvData.tail_disconnect := @Otr.ConvData.tail_disconnect
 
 end Otr.C13
